@@ -128,6 +128,32 @@ func runC16(c *Ctx) {
 		}
 	}
 	c.min("R16.1", 14)
+	// the options of a codec are shared by all its calls: the only functions writing a field of csvOpts through a pointer
+	// are the option setters run at construction; the skip countdown (and any other per-call state) works on a copy
+	nOptW := 0
+	for _, fn := range p.LibFuncs("rt") {
+		for _, in := range ownInstrs(fn) {
+			st, ok := in.(*ssa.Store)
+			if !ok {
+				continue
+			}
+			root, rootT, immT, field := chainRoot(st.Addr)
+			if immT == nil || (typeFullName(immT) != "rt.csvOpts" && (rootT == nil || typeFullName(rootT) != "rt.csvOpts")) {
+				continue
+			}
+			nOptW++
+			al, isLocal := root.(*ssa.Alloc)
+			okW := isLocal && al.Parent() == fn
+			if !okW {
+				// an option setter: func(*csvOpts) literal returned by a CSVOpt constructor, writing its parameter
+				if prm, isP := root.(*ssa.Parameter); isP && fn.Parent() != nil && fn.Signature.Params().Len() == 1 && fn.Signature.Results().Len() == 0 && typeStr(prm.Type()) == "*rt.csvOpts" {
+					okW = true
+				}
+			}
+			c.obI("R16.1", st, "options-written-only-per-call-copy-"+field, okW, "a field of the codec's options is written only by an option setter at construction or in a copy local to the call: the skipped-lines countdown of one call never changes what the next call of the same codec skips", "store to csvOpts."+field+" through a pointer that is not local to this call")
+		}
+	}
+	c.obF("R16.1", p.Fn("rt.pipeCSV"), "skip-countdown-found", nOptW >= 3, "writes to csvOpts fields found (option setters and the skip countdowns)", fmt.Sprintf("%d writes", nOptW))
 	// the option copier
 	ar := p.Fn("(rt.csvOpts).applyToReader")
 	in0 := paramOf(ar, 0)
